@@ -32,6 +32,18 @@ NEEDS = {
  "C13-b5": "initialised bool / integer / half-precision storage and a growing resize (padding in the default dtype promotes the storage)",
  "C14-a5": "reducer at duration 0 (the default): assign dt, then assign a duration > 0 (the record's own dt went stale)",
  "C14-b5": "batchsz / delay increased on a synapse: the boolean spike_ history silently becomes float32 (same slip as C13-b5)",
+ "C15-a5": "a cell with at least two monitors and del_monitor calls until exactly one is left (the survivor's group is dropped from the pool)",
+ "C15-b5": "one trainer on the cells of a RecurrentSerial whose two populations differ in size: first step of a run / after clear()",
+ "C16-a5": "a hook constructed with train_update=False and eval_update=False fires on every module call",
+ "C16-b5": "Normalization(dim=None) on a non-contiguous target (transposed / permuted / expanded): flatten by view raises",
+ "C17-a5": "RecurrentSerial.clear() on a freshly built layer that has not run yet (zeros_like(None)); batch size changed after clear()",
+ "C17-b5": "a layer converted with .to(float64): LIF / GLIF1 clear() leaves float32 voltage and refractory buffers",
+ "C18-a5": "DelayAdjustedMSTDP with register_cell(lr_neg=0.0) (or lr_pos=0.0) while the trainer default is non-zero: the override of exactly 0 is dropped",
+ "C18-b5": "DelayAdjustedMSTDPD with a per-sample reward tensor, batch > 1 and a parameter that is not 2-D (LinearDirect, Conv2D)",
+ "C19-a5": "offline HomogeneousPoissonEncoder with an explicit refrac of exactly 0.0 (floor division by zero)",
+ "C19-b5": "online HomogeneousPoissonEncoder with refrac >= 2 steps and a non-contiguous intensity tensor (re-drawn intervals written to a copy)",
+ "C20-a5": "isi on a raster holding exactly one spike train, in any layout ((T,), (T,1), (1,T))",
+ "C20-b5": "victor_purpura_pair_dist with int64 spike times and a fractional finite cost (the grid takes the spike times' dtype)",
 }
 for k, v in NEEDS.items():
     mp = f"/verif/seeded/{k}/meta.json"
